@@ -131,7 +131,9 @@ def call_for(call, ctx, real):
     big = 100000 if real else (1 << 20)
     argv = {"a_null": None, "a_empty": [], "a_emptystr": [b""], "a_one": [b"prog"], "a_two": [b"a b", b"\x01\xff x", b""],
             "a_huge": [b"prog", _big(big)], "a_many": _MANY, "a_100k": [b"prog", _big(100000)], "a_bytes": [bytes(range(1, 128)), bytes(range(128, 256)) + b" end"],
-            "a_4095": [_big(4095)], "a_4096": [_big(4096)], "a_4097": [_big(4097)]}[call["argv"]]
+            "a_4095": [_big(4095)], "a_4096": [_big(4096)], "a_4097": [_big(4097)],
+            # a_2g: "prog" + 2200 pointers to one 1 MiB string (2.2 GiB of argument text, realised by xdrv's sharedargv); the first 2 MiB decide every expectation
+            "a_2g": [b"prog", _big(1 << 20), _big(1 << 20)]}[call["argv"]]
     envp = {"e_null": None, "e_empty": [], "e_one": [b"A=1"], "e_many": _EMANY,
             "e_none": None}[call["envp"]]
     return call["kind"], p, argv, envp
@@ -317,6 +319,8 @@ def build_script(ctx, items, warm=True, snap=True):
             s.add("inirmdir").add("ini", drv.hx(ini) if ini is not None else "-")
         s.add("dumpenv")
         s.path(p).argv(argv)
+        if call["argv"] == "a_2g":
+            s.add("sharedargv", 2200, 1 << 20)
         if kind == "execve":
             s.envp(envp)
         if warm:
@@ -503,6 +507,8 @@ def build_script_hist(ctx, items, snap=True):
             else:
                 s.add("inirmdir").add("ini", drv.hx(ini) if ini is not None else "-")
             s.path(p).argv(argv)
+            if call["argv"] == "a_2g":
+                s.add("sharedargv", 2200, 1 << 20)
             if kind == "execve":
                 s.envp(envp)
             if real:
